@@ -2,13 +2,17 @@
 analysed components first; cyclic component dependencies are rejected (DESIGN.md §2 C07).
 
 Part A (two repositories ``app`` -> ``lib``), every member of the space is visited:
-  * component ``lib``: a linear release branch of 1..4 commits (thorough: also a second release branch
-    forking from it), any non-empty subset of commits tagged as builds (numbers increase with the commit),
-    any subset matching the search text;
+  * component ``lib``: a linear release branch of 1..4 commits, or any commit DAG with merges (side lines
+    merged into the main line, both parent orders) on 3 commits (thorough: 4), or (thorough) a second release
+    branch forking from the first; any non-empty subset of commits tagged as builds (numbers increase with the
+    commit), optionally commits built twice (two build tags n, n+1 on one commit), any subset matching the
+    search text;
   * parent ``app``: any commit DAG on 1..3 commits (thorough: 4 commits without merges) under one or two
     release branches (every head placement covering all commits), any subset tagged, matching subsets as
     bounded per group, and *every* assignment of a pinned component build (DEPENDS file) to the commits
     that names an existing component build and never decreases along a parent edge.
+  Some groups replay a *history of report requests* on one ReposCollection object (same text twice, another
+  text first); every report of the history is compared.
   The real ``ReposCollection.make_report`` runs on deterministic fake repositories; ``RBuild.included_at`` of
   every report-related component build and the parent's reported builds / bumps are compared with a
   reachability reference (models/ghist_model.py: c07_expected).
@@ -29,7 +33,7 @@ DESIGN_REF = "§2 C07"
 LEVEL_TEXT = ("All two-repository scenarios within the bounds (component up to 3-4 builds, parent up to 3-4 commits on 1-2 "
               "branches, every monotone pin assignment) and all dependency digraphs on up to 4 (5) repositories are run "
               "through the real report builder and compared with independent reference models.")
-LEVEL_NOTE = ("Small-scope: longer histories, merges inside the component, several components per parent, pins that "
+LEVEL_NOTE = ("Small-scope: longer histories, component DAGs beyond 3-4 commits, several components per parent, pins that "
               "decrease or name unknown versions (outside the property's quantifier), component cut-off window (all "
               "dates within one day) are not explored. A pinned version of another component release branch that "
               "contains a build only by reachability is accepted either way (statement does not settle it). Trusted: "
@@ -43,8 +47,13 @@ ASSUMPTIONS = [
     "the pinned component version names an existing component build and never decreases along a parent edge",
     "commit times of both repositories within one day (inside the component cut-off window)",
     "one component per parent in part A; dependency graphs in part B use stub repositories",
+    "a component build that lists no commit of its own (merge of two built side lines) may or may not be recorded; "
+    "if it is, only at a first parent build that ships it",
 ]
-REQUIRED_FEATURES = ["A:ships", "A:bump-without-own-matching-commit", "A:parent-two-branches", "A:parent-merge",
+REQUIRED_FEATURES = ["A:component-merge", "A:side-line-build-shipped-after-main-line-build",
+                     "A:component-commit-built-twice", "A:pin-names-second-build-of-a-commit",
+                     "A:second-build-number-ships-first", "A:repeated-request", "A:other-text-first",
+                     "A:component-build-without-own-commit", "B:repeated-request", "A:ships", "A:bump-without-own-matching-commit", "A:parent-two-branches", "A:parent-merge",
                      "A:pin-names-non-report-build", "A:bump-spans-several-component-builds", "A:ships-at-not-built-head",
                      "A:component-partially-tagged", "A:component-head-not-built", "A:pin-without-report-content",
                      "A:shipped-in-two-parent-branches", "A:later-candidate-not-first", "A:parent-own-matching-commit",
@@ -65,6 +74,32 @@ def _linear_comps(n_max, n_min=1, full_only=False):
                 continue
             for match in gm.subsets(ids):
                 out.append({"parents": parents, "heads": [["release/1.0", n]], "tags": tags, "match": match, "major": 1})
+    return out
+
+
+def _merge_comps(n):
+    """Every DAG on n commits with at least one merge whose last commit reaches all commits; one release branch."""
+    out = []
+    ids = list(range(1, n + 1))
+    full = (1 << (n + 1)) - 2
+    for parents in gm.enumerate_dags(n):
+        if not any(len(p) == 2 for p in parents) or gm.reach_masks(parents)[n] != full:
+            continue
+        for tags in gm.subsets(ids):
+            if not tags:
+                continue
+            for match in gm.subsets(ids):
+                out.append({"parents": parents, "heads": [["release/1.0", n]], "tags": tags, "match": match, "major": 1})
+    return out
+
+
+def _twice_built_comps(n_max, d_max):
+    """Linear components in which 1..d_max tagged commits carry two build tags."""
+    out = []
+    for comp in _linear_comps(n_max):
+        for two in gm.subsets(comp["tags"]):
+            if two and len(two) <= d_max:
+                out.append(dict(comp, tags2=two))
     return out
 
 
@@ -106,22 +141,31 @@ def _parent_shapes(n, names, merges=True):
     return out
 
 
-# group: name -> (component family, parent commits, branch tuples, merges allowed, max matching commits in parent,
-#                 number of shards, compare printed report)
+# group: name -> (component family, parent commits, branch tuples, merges allowed in the parent, max matching commits
+#                 in the parent, number of shards, compare printed report, request histories: "single" | "repeat")
 _A_GROUPS = {
     "quick": [
-        ("lin3/p2", ("linear", 3), (1, 2), (PB1, PB2), True, 2, 8, True),
-        ("lin3/p3b1", ("linear", 3), (3,), (PB1,), True, 3, 24, False),
-        ("lin3/p3b2", ("linear", 3), (3,), (PB2,), True, 1, 96, False),
-        ("lin4full/p3", ("linear-full", 4), (3,), (PB1,), True, 1, 16, False),
+        ("lin3/p2", ("linear", 3), (1, 2), (PB1, PB2), True, 2, 8, True, "repeat"),
+        ("lin3/p3b1", ("linear", 3), (3,), (PB1,), True, 3, 24, False, "single"),
+        ("lin3/p3b2", ("linear", 3), (3,), (PB2,), True, 0, 48, False, "single"),
+        ("lin3full/p3b2", ("linear-full", 3), (3,), (PB2,), True, 1, 16, False, "single"),
+        ("merge3/p3b1", ("merge", 3), (3,), (PB1,), False, 0, 16, False, "single"),
+        ("lin4full/p3", ("linear-full", 4), (3,), (PB1,), True, 0, 8, False, "single"),
+        ("merge3/p2", ("merge", 3), (1, 2), (PB1, PB2), True, 1, 32, False, "single"),
+        ("twice3/p2", ("twice", 3), (1, 2), (PB1, PB2), True, 1, 24, False, "single"),
     ],
     "thorough": [
-        ("lin4/p2", ("linear", 4), (1, 2), (PB1, PB2), True, 2, 16, True),
-        ("lin3/p3", ("linear", 3), (3,), (PB1, PB2), True, 3, 128, False),
-        ("lin4/p3", ("linear4", 4), (3,), (PB1, PB2), True, 1, 256, False),
-        ("lin3/p4", ("linear-full", 3), (4,), (PB1, PB2), False, 1, 128, False),
-        ("lin3/p4merges", ("linear-full", 3), (4,), (PB1, PB2), True, 0, 192, False),
-        ("fork/p3", ("fork", 4), (1, 2, 3), (PB1, PB2), False, 1, 192, False),
+        ("lin4/p2", ("linear", 4), (1, 2), (PB1, PB2), True, 2, 32, True, "repeat"),
+        ("lin3/p3", ("linear", 3), (3,), (PB1, PB2), True, 3, 128, False, "single"),
+        ("lin4/p3", ("linear4", 4), (3,), (PB1, PB2), True, 1, 256, False, "single"),
+        ("lin3/p4", ("linear-full", 3), (4,), (PB1, PB2), False, 1, 128, False, "single"),
+        ("lin3/p4merges", ("linear-full", 3), (4,), (PB1, PB2), True, 0, 192, False, "single"),
+        ("fork/p3", ("fork", 4), (1, 2, 3), (PB1, PB2), False, 1, 192, False, "single"),
+        ("merge3/p2", ("merge", 3), (1, 2), (PB1, PB2), True, 2, 16, False, "repeat"),
+        ("merge3/p3", ("merge", 3), (3,), (PB1, PB2), True, 1, 128, False, "single"),
+        ("merge4/p2", ("merge", 4), (1, 2), (PB1, PB2), True, 1, 96, False, "single"),
+        ("twice3/p2", ("twice-all", 3), (1, 2), (PB1, PB2), True, 2, 16, False, "single"),
+        ("twice3/p3b1", ("twice-all", 3), (3,), (PB1,), True, 1, 64, False, "single"),
     ],
 }
 _COMPS = {}
@@ -136,6 +180,12 @@ def _comps(fam):
             _COMPS[fam] = _linear_comps(n, n_min=4)
         elif kind == "linear-full":
             _COMPS[fam] = _linear_comps(n, n_min=n, full_only=True)
+        elif kind == "merge":
+            _COMPS[fam] = _merge_comps(n)
+        elif kind == "twice":
+            _COMPS[fam] = _twice_built_comps(n, 1)
+        elif kind == "twice-all":
+            _COMPS[fam] = _twice_built_comps(n, n)
         else:
             _COMPS[fam] = _fork_comps()
     return _COMPS[fam]
@@ -153,7 +203,8 @@ def bounds(tier):
     return {
         "part_A_groups": [{"name": g[0], "component": f"{g[1][0]} up to {g[1][1]} commits", "parent_commits": list(g[2]),
                            "parent_branches": [list(b) for b in g[3]], "parent_merges": g[4],
-                           "parent_matching_commits_at_most": g[5], "shards": g[6], "printed_report_compared": g[7]}
+                           "parent_matching_commits_at_most": g[5], "shards": g[6], "printed_report_compared": g[7],
+                           "request_histories": _HISTORIES[g[8]]}
                           for g in _A_GROUPS[tier]],
         "pins": "every assignment naming an existing component build and never decreasing along a parent edge",
         "part_B_groups": [{"ids": g[0], "self_loops": g[1], "supply_orders": g[2], "absent_dependencies": g[3],
@@ -171,28 +222,31 @@ def shards(tier):
 
 
 # ------------------------------------------------------------------ part A: one scenario
-def check_scenario(case, acc, compare_printed=False):
-    """-> (problems, info dict for features)."""
-    comp, par = case["comp"], case["par"]
-    info = {}
-    comp_builds, comp_exp = gm.c07_component_builds(comp)
-    assert comp_builds is not None
-    req, opt = gm.c07_expected(comp, par, comp_builds, comp_exp)
-    info["req"] = req
-    acc.trans(1)
-    try:
-        with gm.cpu_limit(5.0):
-            _coll, report = gm.run_two_repos(gm.c07_comp_spec(comp), gm.c07_parent_spec(par, comp),
-                                             order=tuple(case.get("order", ("app", "lib"))))
-        rg = dict(report.data)
-        lib_rg, app_rg = rg["lib"], rg["app"]
-    except gm.Hang:
-        return [("hangs", "make_report does not terminate (5 s CPU)", "no result", "a report")], info
-    except Exception as e:  # noqa
-        return [(f"raises-{type(e).__name__}", f"make_report raised {type(e).__name__}: {e}", repr(e), "a report")], info
+T1 = gm.SEARCH_TEXT
+T2 = "BUG-8"          # contained in the messages of some commits that do not match T1
+_HISTORIES = {"single": [[T1]], "repeat": [[T1], [T1, T1], [T2, T1], [T1, T2]]}
+
+
+def _judge_report(comp, par, report, compare_printed, info):
+    """One report of a two-repository collection against the reference. comp/par carry the matching sets
+    valid for the text of this request."""
     problems = []
-    # ---- component side: included_at of every report-related component build
-    seen = {}
+    rg = dict(report.data)
+    if sorted(rg) != ["app", "lib"] or len(report.data) != 2:
+        return [("report-repositories", "the report does not hold each repository once",
+                 [r for r, _g in report.data], ["app", "lib"])]
+    lib_rg, app_rg = rg["lib"], rg["app"]
+    # ---- the component's own report must be right (C06 reference); it says which builds are report-related
+    ref_builds, comp_exp = gm.c07_component_builds(comp)
+    if ref_builds is None or comp.get("tags2") or any(len(p) == 2 for p in comp["parents"]):
+        # non-linear or twice-built component: the whole component report is judged by the C06 reference (for linear
+        # and forked components the comparison of the listing builds below says the same)
+        cprob = gm.c06_judge(comp["parents"], comp["heads"], comp["tags"], comp["match"], gm.observe_rgraph(lib_rg),
+                             comp_exp, label_of=lambda c: gm.c07_version(comp, c))
+        if cprob:
+            sig, msg, obs, want = cprob[0]
+            return [("component-report/" + sig, "component repository: " + msg, obs, want)]
+    seen, listing = {}, set()
     for rb in lib_rg.branches:
         for b in rb.get_rbuilds_list():
             inc = [(str(x[0]), str(x[1]), str(x[2])) for x in b.included_at]
@@ -201,22 +255,27 @@ def check_scenario(case, acc, compare_printed=False):
                     problems.append(("pseudo-build-included", "a 'not merged' pseudo build of the component has included_at",
                                      inc, []))
                 continue
-            if not b.get_printable_rcommits() and not inc:
-                continue
-            seen[(rb.branch_name, b.rcommit.commit.intid)] = inc
-    if set(seen) != set(comp_builds):
-        problems.append(("component-report-builds", "report-related builds of the component differ from the reference",
-                         sorted(seen), sorted(comp_builds)))
-        return problems, info
+            key = (rb.branch_name, b.rcommit.commit.intid)
+            seen[key] = inc
+            if b.get_printable_rcommits():
+                listing.add(key)
+    if ref_builds is not None and listing != ref_builds:
+        return problems + [("component-report-builds", "report-related builds of the component differ from the reference",
+                            sorted(listing), sorted(ref_builds))]
+    if len(seen) > len(listing):
+        info["nonlisting"] = True
+    req, opt = gm.c07_expected(comp, par, set(seen), comp_exp)
+    info["req"] = {k: v for k, v in req.items() if k in listing}
+    info["listing"] = listing
     ndup = 0
-    for key in sorted(comp_builds):
+    for key in sorted(seen):
         inc = seen[key]
         got = set(inc)
         if len(got) != len(inc):
             ndup += 1
         want = {("app", pb, lab) for pb, lab, _pc in req[key]}
         allowed = want | {("app", pb, lab) for pb, lab, _pc in opt[key]}
-        missing = want - got
+        missing = (want - got) if key in listing else set()
         extra = got - allowed
         info["opt_expected"] = info.get("opt_expected", 0) + len(allowed - want)
         info["opt_observed"] = info.get("opt_observed", 0) + len((allowed - want) & got)
@@ -239,20 +298,19 @@ def check_scenario(case, acc, compare_printed=False):
                     str(b.build_num), None if bump is None else str(bump.to_buildnum),
                     [rc.commit.intid for rc in b.get_printable_rcommits()])
     info["shown"] = shown
-    for key in sorted(comp_builds):
+    for key in sorted(listing):
         for pb, lab, pc in sorted(req[key]):
-            s = shown.get((pb, pc))
+            sh = shown.get((pb, pc))
             pin = gm.c07_version(comp, par["pins"][pc - 1])
-            if s is None:
+            if sh is None:
                 problems.append(("shipping-build-not-reported",
                                  f"parent build at commit {pc} of {pb} first ships component build {key} but is not "
                                  f"among the reported builds", sorted(shown), [pb, pc]))
-            elif s[0] != lab or s[1] != pin:
+            elif sh[0] != lab or sh[1] != pin:
                 problems.append(("shipping-build-label",
-                                 f"parent build at commit {pc} of {pb} is reported as {s[0]} with lib={s[1]}",
-                                 list(s[:2]), [lab, pin]))
+                                 f"parent build at commit {pc} of {pb} is reported as {sh[0]} with lib={sh[1]}",
+                                 list(sh[:2]), [lab, pin]))
     if compare_printed and not problems:
-        acc.trans(1)
         try:
             pp = gm.parse_printed(str(report))
             for rb in lib_rg.branches:
@@ -265,7 +323,41 @@ def check_scenario(case, acc, compare_printed=False):
                                          pblds[lab][2], want))
         except (ValueError, KeyError, StopIteration) as e:
             problems.append(("printed-report-unparseable", repr(e), None, None))
-    return problems, info
+    return problems
+
+
+def check_scenario(case, acc, compare_printed=False):
+    """Replays the case's history of report requests on one ReposCollection; -> (problems, info of the last request)."""
+    comp, par = case["comp"], case["par"]
+    texts = case.get("texts") or [T1]
+    info = {}
+    try:
+        with gm.cpu_limit(5.0):
+            coll = gm.two_repo_collection(gm.c07_comp_spec(comp), gm.c07_parent_spec(par, comp),
+                                          order=tuple(case.get("order", ("app", "lib"))))
+    except gm.Hang:
+        return [("hangs", "ReposCollection does not terminate (5 s CPU)", "no result", "a collection")], info
+    except Exception as e:  # noqa
+        return [(f"raises-{type(e).__name__}", f"ReposCollection raised {type(e).__name__}: {e}", repr(e), "a collection")], info
+    nc, npar = len(comp["parents"]), len(par["parents"])
+    for k, text in enumerate(texts):
+        acc.trans(1)
+        comp_t = comp if text == T1 else dict(comp, match=gm.matching_for_text(nc, comp["match"], text))
+        par_t = par if text == T1 else dict(par, match=gm.matching_for_text(npar, par["match"], text))
+        info = {}
+        try:
+            with gm.cpu_limit(5.0):
+                report = coll.make_report(text)
+            problems = _judge_report(comp_t, par_t, report, compare_printed, info)
+        except gm.Hang:
+            problems = [("hangs", "make_report does not terminate (5 s CPU)", "no result", "a report")]
+        except Exception as e:  # noqa
+            problems = [(f"raises-{type(e).__name__}", f"make_report raised {type(e).__name__}: {e}", repr(e), "a report")]
+        if problems:
+            if k:       # a later request of the history: tell it apart from a defect visible on a fresh collection
+                problems = [(f"request-{k + 1}-of-history/" + p[0],) + tuple(p[1:]) for p in problems]
+            return problems, info
+    return [], info
 
 
 def _features_A(case, info):
@@ -273,12 +365,23 @@ def _features_A(case, info):
     f = set()
     req = info.get("req", {})
     shown = info.get("shown", {})
-    pmatch, ptags = set(par["match"]), set(par["tags"])
+    pmatch = set(par["match"])
     ctags = set(comp["tags"])
+    texts = case.get("texts") or [T1]
+    if len(texts) > 1:
+        f.add("A:repeated-request")
+        if texts[0] != T1:
+            f.add("A:other-text-first")
     if len(par["heads"]) == 2:
         f.add("A:parent-two-branches")
     if any(len(p) == 2 for p in par["parents"]):
         f.add("A:parent-merge")
+    if any(len(p) == 2 for p in comp["parents"]):
+        f.add("A:component-merge")
+    if comp.get("tags2"):
+        f.add("A:component-commit-built-twice")
+    if info.get("nonlisting"):
+        f.add("A:component-build-without-own-commit")
     if pmatch:
         f.add("A:parent-own-matching-commit")
     if len(ctags) < len(comp["parents"]):
@@ -286,12 +389,13 @@ def _features_A(case, info):
     if any(c not in ctags for _b, c in req):
         f.add("A:component-head-not-built")
     cb_commits = {c for _b, c in req}
-    for v in par["pins"]:
-        if v not in cb_commits:
-            f.add("A:pin-names-non-report-build")
-            break
+    pin_commits = [gm.pin_commit(v) for v in par["pins"]]
+    if any(gm.pin_rank(v) for v in par["pins"]):
+        f.add("A:pin-names-second-build-of-a-commit")
+    if any(v not in cb_commits for v in pin_commits):
+        f.add("A:pin-names-non-report-build")
     rc = gm.reach_masks(comp["parents"])
-    if any(not any((rc[v] >> c) & 1 for c in cb_commits) for v in par["pins"]):
+    if any(not any((rc[v] >> c) & 1 for c in cb_commits) for v in pin_commits):
         f.add("A:pin-without-report-content")
     nontrivial = False
     by_parent_build = {}
@@ -304,17 +408,26 @@ def _features_A(case, info):
             by_parent_build.setdefault((pb, pc), set()).add(key)
             if lab == gm.NOT_BUILT:
                 f.add("A:ships-at-not-built-head")
+            if gm.pin_rank(par["pins"][pc - 1]) and gm.pin_commit(par["pins"][pc - 1]) == key[1]:
+                f.add("A:second-build-number-ships-first")
             if pc not in pmatch and not (shown.get((pb, pc)) or (0, 0, [1]))[2]:
                 f.add("A:bump-without-own-matching-commit")
     if any(len(v) >= 2 for v in by_parent_build.values()):
         f.add("A:bump-spans-several-component-builds")
+    # a side-line build (not contained in the main-line build shipped earlier) is shipped by a later parent build
+    rp = gm.reach_masks(par["parents"])
+    for (pb1, pc1), keys1 in by_parent_build.items():
+        for (pb2, pc2), keys2 in by_parent_build.items():
+            if pb1 == pb2 and pc1 != pc2 and (rp[pc2] >> pc1) & 1:
+                if any(not (rc[a[1]] >> b[1]) & 1 and not (rc[b[1]] >> a[1]) & 1 for a in keys1 for b in keys2):
+                    f.add("A:side-line-build-shipped-after-main-line-build")
     # 'first' is a real choice: a later candidate of the same branch also ships the build
     pexp = gm.c06_expected(par["parents"], par["heads"], par["tags"], [])
     for e in pexp:
         if len(e["builds"]) >= 2:
             for key, items in req.items():
                 firsts = {pc for pb, _l, pc in items if pb == e["branch"]}
-                if firsts and any(b not in firsts and (rc[par["pins"][b - 1]] >> key[1]) & 1 for b in e["builds"]):
+                if firsts and any(b not in firsts and (rc[pin_commits[b - 1]] >> key[1]) & 1 for b in e["builds"]):
                     f.add("A:later-candidate-not-first")
                     nontrivial = True
     return f, nontrivial
@@ -330,7 +443,7 @@ def _report(acc, case, problems):
 
 def _run_A(shard, tier, acc):
     _p, gi, j = shard
-    name, fam, pns, branch_sets, merges, match_max, k, printed = _A_GROUPS[tier][gi]
+    name, fam, pns, branch_sets, merges, match_max, k, printed, hist = _A_GROUPS[tier][gi]
     comps = _comps(fam)
     shapes = []
     for n in pns:
@@ -339,7 +452,7 @@ def _run_A(shard, tier, acc):
     idx = -1
     for comp in comps:
         rc = gm.reach_masks(comp["parents"])
-        versions = sorted(comp["tags"])
+        versions = gm.c07_versions(comp)
         for n, parents, heads in shapes:
             idx += 1
             if idx % k != j:
@@ -353,25 +466,28 @@ def _run_A(shard, tier, acc):
                     if len(match) > match_max:
                         continue
                     for pins in pin_sets:
-                        case = {"part": "A", "comp": comp,
-                                "par": {"parents": parents, "heads": heads, "tags": tags, "match": match, "pins": pins}}
-                        problems, info = check_scenario(case, acc, printed)
-                        feats, nontriv = _features_A(case, info)
-                        if info.get("dups"):
-                            acc.note_sum("A_duplicate_included_at_entries", info["dups"])
-                        if info.get("opt_expected"):
-                            acc.feat("A:cross-branch-containment(accepted either way)")
-                            acc.note_sum("A_cross_branch_entries_possible", info["opt_expected"])
-                            acc.note_sum("A_cross_branch_entries_recorded", info.get("opt_observed", 0))
-                        nship = sum(len(v) for v in info.get("req", {}).values())
-                        acc.case(nontrivial=nontriv, features=tuple(feats),
-                                 outcome=f"A builds={len(info.get('req', {}))} ships={nship}" + (" VIOLATION" if problems else ""))
-                        if nontriv and len(match) == 0 and len(tags) == 1:
-                            acc.sample(case)
-                        if problems:
-                            _report(acc, case, problems)
-                            if _too_many_hangs(acc, problems):
-                                return
+                        for texts in _HISTORIES[hist]:
+                            case = {"part": "A", "comp": comp,
+                                    "par": {"parents": parents, "heads": heads, "tags": tags, "match": match, "pins": pins}}
+                            if texts != [T1]:
+                                case["texts"] = texts
+                            problems, info = check_scenario(case, acc, printed)
+                            feats, nontriv = _features_A(case, info)
+                            if info.get("dups"):
+                                acc.note_sum("A_duplicate_included_at_entries", info["dups"])
+                            if info.get("opt_expected"):
+                                acc.feat("A:cross-branch-containment(accepted either way)")
+                                acc.note_sum("A_cross_branch_entries_possible", info["opt_expected"])
+                                acc.note_sum("A_cross_branch_entries_recorded", info.get("opt_observed", 0))
+                            nship = sum(len(v) for v in info.get("req", {}).values())
+                            acc.case(nontrivial=nontriv, features=tuple(feats),
+                                     outcome=f"A builds={len(info.get('req', {}))} ships={nship}" + (" VIOLATION" if problems else ""))
+                            if nontriv and len(match) == 0 and len(tags) == 1:
+                                acc.sample(case)
+                            if problems:
+                                _report(acc, case, problems)
+                                if _too_many_hangs(acc, problems):
+                                    return
 
 
 # ------------------------------------------------------------------ part B
@@ -384,7 +500,7 @@ class _StubRepo:
         self._log = log
 
     def build_report_rgraph(self, search_text, components_rgraphs):
-        token = ("rgraph", self.repo_id)
+        token = ("rgraph", self.repo_id, search_text)       # the graph made for this request
         self._log.append((self.repo_id, search_text, dict(components_rgraphs)))
         return token
 
@@ -427,28 +543,35 @@ def _check_collection(case, acc):
         for d in deps.get(r, ()):
             if d in present and pos[d] > pos[r]:
                 return [("owner-before-component", f"{r} is ordered before its component {d}", so, None)]
-    acc.trans(1)
-    try:
-        res = coll.make_reports_data("BUG-7")
-    except gm.Hang:
-        raise
-    except Exception as e:  # noqa
-        return [(f"reports-raises-{type(e).__name__}", f"make_reports_data raised {e!r}", repr(e), None)]
-    called = [c[0] for c in log]
-    if sorted(called) != sorted(ids):
-        return [("analysis-calls", "not every repository was analysed exactly once", called, sorted(ids))]
-    cpos = {r: k for k, r in enumerate(called)}
-    for r in ids:
-        for d in deps.get(r, ()):
-            if d in present and cpos[d] > cpos[r]:
-                return [("analysis-order", f"{r} was analysed before its component {d}", called, None)]
-    for rid, text, comps in log:
-        want = {d: ("rgraph", d) for d in deps.get(rid, ()) if d in present}
-        if comps != want or text != "BUG-7":
-            return [("components-argument", f"{rid} did not receive exactly the graphs of its present components",
-                     sorted(comps), sorted(want))]
-    if sorted(res) != sorted((r, ("rgraph", r)) for r in ids):     # order of the result is not part of the statement
-        return [("reports-data", "make_reports_data does not return every repository's graph once", repr(res), None)]
+    # a history of report requests on the same collection object: every request analyses every repository once,
+    # components first, and hands each repository the graphs made for *this* request
+    for k, text in enumerate(case.get("texts") or ["BUG-7"]):
+        del log[:]
+        acc.trans(1)
+        pre = f"request-{k + 1}-of-history/" if k else ""
+        try:
+            res = coll.make_reports_data(text)
+        except gm.Hang:
+            raise
+        except Exception as e:  # noqa
+            return [(f"{pre}reports-raises-{type(e).__name__}", f"make_reports_data raised {e!r}", repr(e), None)]
+        called = [c[0] for c in log]
+        if sorted(called) != sorted(ids):
+            return [(pre + "analysis-calls", "not every repository was analysed exactly once", called, sorted(ids))]
+        cpos = {r: n for n, r in enumerate(called)}
+        for r in ids:
+            for d in deps.get(r, ()):
+                if d in present and cpos[d] > cpos[r]:
+                    return [(pre + "analysis-order", f"{r} was analysed before its component {d}", called, None)]
+        for rid, got_text, comps in log:
+            want = {d: ("rgraph", d, text) for d in deps.get(rid, ()) if d in present}
+            if comps != want or got_text != text:
+                return [(pre + "components-argument",
+                         f"{rid} did not receive exactly the graphs of its present components made for this request",
+                         sorted(comps.items()), sorted(want.items()))]
+        if sorted(res) != sorted((r, ("rgraph", r, text)) for r in ids):   # order of the result: not in the statement
+            return [(pre + "reports-data", "make_reports_data does not return every repository's graph once",
+                     repr(res), None)]
     return []
 
 
@@ -475,11 +598,13 @@ def _run_B(shard, tier, acc):
         for av in absent_variants:
             d2 = {i: deps[i] + ([ABSENT] if i in av else []) for i in ids}
             for order in perms:
-                case = {"part": "B", "ids": ids, "deps": d2, "order": list(order)}
+                case = {"part": "B", "ids": ids, "deps": d2, "order": list(order), "texts": ["BUG-7", "BUG-8", "BUG-7"]}
                 problems = check_collection(case, acc)
                 cyc = gm.deps_cyclic(ids, d2)
                 nedges = sum(1 for u in ids for v in d2[u] if v in ids)
                 feats = ["B:cyclic" if cyc else "B:acyclic"]
+                if not cyc:
+                    feats.append("B:repeated-request")
                 if any(u in d2[u] for u in ids):
                     feats.append("B:self-loop")
                 if av:
